@@ -432,6 +432,7 @@ func statusName(s int32) string {
 
 var execSeq int64
 var execByGraph sync.Map // *scheduler.ExecutionGraph -> *execution
+var execByStage sync.Map // *scheduler.Stage -> *execution
 
 func init() {
 	scheduler.VerifSetHandler(func(point string, a ...interface{}) {
@@ -445,6 +446,24 @@ func init() {
 				x.ticksTotal++
 				x.cond.Broadcast()
 				x.mu.Unlock()
+			}
+		case "sched.stage.errored":
+			// the stage is Error and not yet Done (allow_failure) / recorded: keep it there for two full passes
+			st := a[0].(*scheduler.Stage)
+			if v, ok := execByStage.Load(st); ok {
+				x := v.(*execution)
+				x.mu.Lock()
+				start := x.ticksTotal
+				deadline := time.Now().Add(50 * time.Millisecond)
+				for x.ticksTotal < start+2 && !x.returned && time.Now().Before(deadline) {
+					x.mu.Unlock()
+					time.Sleep(50 * time.Microsecond)
+					x.mu.Lock()
+				}
+				x.mu.Unlock()
+			}
+			if f, ok := schedDelay.Load().(func(string)); ok && f != nil {
+				f(point)
 			}
 		default:
 			if f, ok := schedDelay.Load().(func(string)); ok && f != nil {
@@ -487,6 +506,7 @@ func (x *execution) build(spec *graphSpec, m *mgraph) (*scheduler.ExecutionGraph
 			st.Task = t
 		}
 		ms.real = st
+		execByStage.Store(st, x)
 		stages = append(stages, st)
 	}
 	g, err := scheduler.NewExecutionGraph(stages...)
@@ -553,6 +573,11 @@ func runExecution(spec *graphSpec, strat strategy, work string) (res execResult)
 	defer func() {
 		for gg := range x.graphs {
 			execByGraph.Delete(gg)
+		}
+		for _, ms := range x.all {
+			if ms.real != nil {
+				execByStage.Delete(ms.real)
+			}
 		}
 	}()
 	if err != nil {
@@ -1106,17 +1131,25 @@ func randomSpec(rnd *h.Rand, nmin, nmax int, nested bool) *graphSpec {
 		}
 	}
 	g := mkSpec(n, edges, outc, rnd.Perm(n))
+	withConds := rnd.Chance(35)
 	for i := range g.Stages {
 		rnd2 := g.Stages[i].Deps
 		rnd.Shuffle(rnd2)
+		if withConds && g.Stages[i].Outcome != oCondFalse && rnd.Chance(50) {
+			g.Stages[i].Cond = true // a condition that holds: evaluated (exec) on every pass while the stage waits
+		}
 	}
 	if nested {
 		k := rnd.Intn(n)
 		inner := randomSpec(rnd, 1, 3, false)
-		for i := range inner.Stages {
-			inner.Stages[i].Name = "i" + inner.Stages[i].Name[1:]
-			for j := range inner.Stages[i].Deps {
-				inner.Stages[i].Deps[j] = "i" + inner.Stages[i].Deps[j][1:]
+		if rnd.Bool() {
+			// half of the nested graphs use their own names, the other half the same stage names as the
+			// including pipeline (names are only unique within one pipeline)
+			for i := range inner.Stages {
+				inner.Stages[i].Name = "i" + inner.Stages[i].Name[1:]
+				for j := range inner.Stages[i].Deps {
+					inner.Stages[i].Deps[j] = "i" + inner.Stages[i].Deps[j][1:]
+				}
 			}
 		}
 		g.Stages[k].Nested = inner
@@ -1261,7 +1294,7 @@ func modeSched(a args) {
 	for i := 0; i < ncancel; i++ {
 		r := h.NewRand(int64(rnd.U64()), "cancel")
 		add(func() {
-			g := randomSpec(r, 1, 4, r.Chance(20))
+			g := randomSpec(r, 1, 4, r.Chance(35))
 			kind := "caller"
 			if r.Bool() {
 				kind = "cond"
@@ -1271,6 +1304,14 @@ func modeSched(a args) {
 					if len(g.Stages[i].Deps) > 0 && g.Stages[i].Outcome != oCondFalse && g.Stages[i].Nested == nil {
 						g.Stages[i].Cond = true
 						any = true
+					}
+					if in := g.Stages[i].Nested; in != nil {
+						for j := range in.Stages {
+							if len(in.Stages[j].Deps) > 0 && in.Stages[j].Outcome != oCondFalse {
+								in.Stages[j].Cond = true
+								any = true
+							}
+						}
 					}
 				}
 				if !any {
